@@ -10,9 +10,9 @@ import (
 
 func init() {
 	register(&Property{
-		ID:  "C10",
-		Run: runC10,
-		Explain: "Static structural necessary conditions of component lifecycle ordering: (R1) Service.Start runs extensions.Start ≺ NotifyConfig ≺ pipelines.StartAll ≺ NotifyPipelineReady, each gated by the success of the previous; Service.Shutdown runs NotifyPipelineNotReady ≺ pipelines.ShutdownAll ≺ extensions.Shutdown ≺ telemetry shutdown, all unconditionally, single return; (R2) StartAll walks the topological order (the unmodified result of topo.Sort) descending and ShutdownAll ascending; extensions start ascending over the computed dependency order and stop descending; the extension graph's edges go dependency→dependent and the order copy preserves positions; (R3) start loops return at the first failing Start; shutdown loops have no exit other than their condition and aggregate errors; (R4) a failed service start shuts the service down (shared with C20.R4); (R5) a shared component's wrapped Start/Shutdown are invoked only inside startOnce.Do/stopOnce.Do, the wrapped Shutdown and the map removal on every path of the stop closure; (R6) every lifecycle site brackets Start/Shutdown with status events (shared with C11.R6).",
+		ID:         "C10",
+		Run:        runC10,
+		Explain:    "Static structural necessary conditions of component lifecycle ordering: (R1) Service.Start runs extensions.Start ≺ NotifyConfig ≺ pipelines.StartAll ≺ NotifyPipelineReady, each gated by the success of the previous; Service.Shutdown runs NotifyPipelineNotReady ≺ pipelines.ShutdownAll ≺ extensions.Shutdown ≺ telemetry shutdown, all unconditionally, single return; (R2) StartAll walks the topological order (the unmodified result of topo.Sort) descending and ShutdownAll ascending; extensions start ascending over the computed dependency order and stop descending; the extension graph's edges go dependency→dependent and the order copy preserves positions; (R3) start loops return at the first failing Start; shutdown loops have no exit other than their condition and aggregate errors; (R4) a failed service start shuts the service down (shared with C20.R4); (R5) a shared component's wrapped Start/Shutdown are invoked only inside startOnce.Do/stopOnce.Do, the wrapped Shutdown and the map removal on every path of the stop closure; (R6) every lifecycle site brackets Start/Shutdown with status events (shared with C11.R6).",
 		NotDecided: "Exactly-once across arbitrary failure positions as a count; correctness of gonum's topological sort; that graph edges point downstream for every topology (C09.R4 checks the edge classes).",
 		Assumes:    []string{"gonum topo.Sort returns a topological order of the graph it is given", "sync.Once semantics"},
 		Technique:  "static analysis: call ordering/gating by dominance on SSA, loop-direction classification, value provenance, who-may-call",
